@@ -24,12 +24,14 @@ from harness import core, gen_scheme
 from harness.core import bool_, enc, erat, lst, rat, rats, strs
 from harness.props import _c17_gen as G
 from harness.props import _c17_regex as RX
+from harness.props import _c17_scheme as SC
 
 PROP = "C17"
 REQUIRED_THEOREMS = [
     "generated_tuple_word_eq_model",
     "generated_word_eq_model",
     "generated_number_scientific_eq_model",
+    "scientific_conversion_total",
     "generated_render_eq_model",
     "tuple_key_roundtrip",
     "tuple_key_roundtrip_iff",
@@ -49,6 +51,11 @@ REQUIRED_THEOREMS = [
     "saveSchemeRefs_eq",
     "ascii_orientation",
     "ascii_timeSpectral_entry",
+    "yaml_scalar_roundtrip",
+    "scheme_table_wellformed",
+    "result_table_wellformed",
+    "scheme_spec_roundtrip",
+    "result_spec_roundtrip",
 ]
 TRUSTED = [
     "hand-written model lean/GlotaranModel/C17.lean of builtin/io/yml/yml.py (save_model key rendering, save_result, "
@@ -63,12 +70,18 @@ TRUSTED = [
     "translator harness/props/_c17_regex.py (re._parser parse tree of the live RegexPattern attributes -> regex AST, ast walk of "
     "sanitize.py for match/fullmatch/findall and of yml.py for the key f-string) and the backtracking engine of "
     "lean/GlotaranModel/C17Regex.lean (ASCII \\w \\d \\s): tied by the text stream (every string through Python's re and the engine)",
+    "generator harness/props/_c17_scheme.py (dataclasses.fields of the live Scheme / Result classes, ast shapes of save_scheme / load_scheme / "
+    "load_result / save_result in yml.py) and the hand-written model lean/GlotaranModel/C17Scheme.lean of dataclass_helpers.asdict / "
+    "fromdict and of ruamel's YAML 1.2 scalar representers / implicit resolvers (closed-form reading): tied by the yaml stream (every "
+    "text through ruamel's own resolver, every value through write_dict / load_dict) and by comparing every scheme.yml / result.yml the "
+    "scheme and result streams write, and every loaded Scheme / Result, with the model's document / instance",
 ]
 ASSUMPTIONS = [
     "labels and dict keys in the model correspondence are ASCII (Python's \\w also matches non-ASCII letters; those are "
     "explored by the oracle only)",
-    "float(s) for a string matching number_scientific succeeds iff the match covers the whole string (generators avoid "
-    "'_' and blanks after digits)",
+    "a string that fully matches number_scientific (sign? digits* .? digits+ [eE] sign? digits+) is accepted by Python's "
+    "float() — the only strings convert_scientific_to_float passes to float() since it applies the pattern with fullmatch "
+    "(fixes/C17/C17-scientific-fullmatch.patch); the text stream checks it on every such string it generates",
     "no symlinks inside the scratch tree, no leading '//' in paths",
     "the yaml transport assumption (everything but tuples unchanged) is what the tree stream tests on every run",
 ]
@@ -84,7 +97,10 @@ RULE = (
     "result (results of real optimisations saved under every SavingOptions combination to relative / absolute / nested / "
     "dotted folders, after pre-saving components elsewhere, re-saved, loaded and re-saved, moved; result.yml / scheme.yml "
     "references, source_path state, loaded content), netcdf (datasets of random shape, dtype, coordinate values incl. "
-    "NaN/inf/-0.0/subnormal/empty/strings), ascii (both formats x both dimension orders x non-square shapes). "
+    "NaN/inf/-0.0/subnormal/empty/strings), ascii (both formats x both dimension orders x non-square shapes), yaml (texts over number / "
+    "word / indicator characters and a pool of look-alikes through ruamel's resolver; floats of every magnitude, ints of any size, None, "
+    "bools, strings, string lists, numpy scalars through write_dict -> load_dict); every scheme.yml / result.yml of the scheme and result "
+    "streams is compared key by key, scalar by scalar with the field-table model, and every loaded Scheme / Result field by field. "
     "A case is non-trivial when it reaches the persistence code (not rejected before); distinct = distinct case content"
 )
 EXOTIC_KEYS = ("tuple-key-nonword-label", "label-looks-like-number", "str-key-looks-like-tuple")
@@ -98,7 +114,8 @@ def generate(ck):
     """regenerate lean/GlotaranModel/Generated/C17.lean (the three loader patterns as regex ASTs, how they are applied,
     the key template of save_model) from VERIF_REPO"""
     tables, _ = RX.generate(ck)
-    return tables
+    tables2, _ = SC.generate(ck)
+    return tables + tables2
 
 
 # ================================================================================================
@@ -275,17 +292,28 @@ def check_text(ck, case, batch):
         impl = "float" if isinstance(r, float) else "none"
     except ValueError:
         impl = "error"
-    if not SCI_RE.match(s) and impl != "none":
+    # a string that is not a scientific-notation number *in full* is left alone: neither converted nor a ValueError
+    # (before fixes/C17/C17-scientific-fullmatch.patch a number-like prefix — '1e3x' — reached float() and raised)
+    full = SCI_RE.fullmatch(s) is not None
+    if not full and impl == "error":
+        ck.violation("plain-string-raises", f"convert_scientific_to_float({s!r}) raises ValueError for a string that is not a "
+                     "scientific-notation number in full (it must be left alone)", case)
+    elif not full and impl != "none":
         ck.violation("plain-string-converted", f"convert_scientific_to_float({s!r}) gives {impl} for a string that is not of the form "
-                     "<number>e<digits>", case)
+                     "<number>e<digits> in full", case)
+    elif full and impl != "float":
+        ck.violation("scientific-string-not-converted", f"convert_scientific_to_float({s!r}) gives {impl} for a string that is a "
+                     "scientific-notation number in full (hand-written 1E7 values must become floats)", case)
     batch.add(f"sci {enc(s)}", impl, "convert-scientific", f"convert_scientific_to_float({s!r})", case,
               post=lambda a: "none" if a == "none" else ("float" if a == "rest ~" else ("error" if a.startswith("rest ") else a)))
     # internal: the regexes themselves
     batch.add(f"twm {enc(s)}", bool_(bool(rp.tuple_word.match(s))), "regex", "tuple_word.match", case, internal=True)
     batch.add(f"words {enc(s)}", strs(rp.word.findall(s)), "regex", "word.findall", case, internal=True)
     ck.count("text:tuple-like" if rp.tuple_word.match(s) else "text:not-tuple-like")
-    if rp.number_scientific.match(s):
+    if SCI_RE.fullmatch(s):
         ck.count("text:scientific")
+    elif SCI_RE.match(s):
+        ck.count("text:scientific-prefix-only")
     # oracle (statement): a rendered pair of word labels comes back as that pair
     if case.get("pair"):
         a, b = case["pair"]
@@ -416,9 +444,10 @@ def rand_model_tree(rng, clean):
 
 
 def _cleanse(v):
-    """remove what the round-trip theorem excludes: tuple-like string keys, number-like strings"""
+    """remove what the round-trip theorem excludes: tuple-like string keys, strings that are scientific-notation numbers
+    in full (a number-like prefix, '1e3x', stays: it must round-trip since the fullmatch repair)"""
     if isinstance(v, str):
-        return "e" + v if SCI_RE.match(v) else v
+        return "e" + v if SCI_RE.fullmatch(v) else v
     if isinstance(v, list):
         return [_cleanse(x) for x in v]
     if isinstance(v, tuple):
@@ -476,8 +505,8 @@ def check_tree(ck, case, batch):
             ck.oracle_evals += 1
             ck.count("tree:clean")
             if impl == "none" or not same_value(listify(tree), listify(plain(spec))):
-                ck.violation("clean-tree-roundtrip", "a specification tree with word-label tuple keys and no number-like "
-                             "strings does not come back from save_model -> sanitize_yaml", case)
+                ck.violation("clean-tree-roundtrip", "a specification tree with word-label tuple keys and no string that is a "
+                             "scientific-notation number in full does not come back from save_model -> sanitize_yaml", case)
         else:
             ck.count("tree:dirty")
 
@@ -695,7 +724,7 @@ def classify_exotic(tree):
         elif isinstance(o, (list, tuple)):
             for x in o:
                 walk(x)
-        elif isinstance(o, str) and SCI_RE.match(o):
+        elif isinstance(o, str) and SCI_RE.fullmatch(o):
             found.add("label-looks-like-number")
     walk(tree)
     for k in EXOTIC_KEYS:
@@ -1189,6 +1218,20 @@ def _check_result(ck, case, batch):
                     if bad:
                         ck.violation("ref-not-inside-result-folder", f"{rf.name if field.count('.') == 0 else 'scheme.yml'} field {field}: reference {ref!r} "
                                      f"is not a file written into the result folder by this save_result", case)
+                # correspondence: the whole result.yml against the field-table model (scheme / initial_parameters are the files of this save)
+                from glotaran.project import Result as _Result
+                batch.add("fields result", field_names_line(_Result), "result-field-table", "dataclasses.fields(Result) vs the regenerated table", dict(case))
+                last_save = (strs(cwd_parts), (rf.parent / "scheme.yml").as_posix(), str(current.scheme.parameters.source_path), lst(fv_list(current)))
+                batch.add(f"saveresult2 {last_save[0]} {enc(rf.parent.as_posix())} {enc(last_save[1])} {enc(last_save[2])} {last_save[3]}",
+                          doc_text(rf.read_text()), "result-yml-document", "result.yml as written by save_result (keys, scalar texts, references)",
+                          dict(case), cmp=doc_equiv)
+                batch.add(f"resultrt {last_save[0]} {enc(rf.parent.as_posix())} {enc(last_save[1])} {enc(last_save[2])} {last_save[3]}",
+                          lst(fv_list(load_result(rf))), "result-loaded-instance", "field values of load_result(save_result(r))", dict(case),
+                          post=loaded_post(rf.parent))
+                for fname in STAT_FIELDS:
+                    a = getattr(current, fname)
+                    if a is not None and type(a) not in (int, float, bool, str, list) and not type(a).__module__.startswith("ruamel"):
+                        ck.violation("result-field-not-a-yaml-type", f"result.{fname} holds {a!r} ({type(a).__name__})", dict(case))
                 last_filter = o.get("filter")
                 if current.source_path != Path(target).as_posix():
                     ck.violation("result-source-path", f"result.source_path {current.source_path!r} after saving to {target!r}", case)
@@ -1282,6 +1325,7 @@ def check_scheme(ck, case, batch):
             save_dataset(dset, Path(P(w["data"])) / f"{l}.nc")
         srcs = {"model": scheme.model.source_path, "parameters": scheme.parameters.source_path,
                 "data": [[k, v] for k, v in scheme.data.source_path.items()]}
+        vs_before = fv_list(scheme)
         try:
             save_scheme(scheme, P(case["scheme"]))
         except Exception as e:
@@ -1291,6 +1335,12 @@ def check_scheme(ck, case, batch):
         refs = flat_refs(sdict, ["model", "parameters", "data"])
         batch.add(f"savescheme {strs(cwd_parts)} {enc(Path(P(case['scheme'])).as_posix())} {enc(srcs['model'])} {enc(srcs['parameters'])} "
                   f"{pairs_line(srcs['data'])}", pairs_line(refs), "save-scheme-refs", "references written by save_scheme", case)
+        # correspondence: the whole scheme.yml (every field of the live class) and the loaded instance against the field-table model
+        spath = Path(P(case["scheme"])).as_posix()
+        batch.add("fields scheme", field_names_line(Scheme), "scheme-field-table", "dataclasses.fields(Scheme) vs the regenerated table", case)
+        vs_line = lst(vs_before)
+        batch.add(f"savescheme2 {strs(cwd_parts)} {enc(spath)} {vs_line}", doc_text(Path(P(case["scheme"])).read_text()), "scheme-yml-document",
+                  "scheme.yml as written by save_scheme (keys, scalar texts, plain / quoted, references)", case, cmp=doc_equiv)
         if scheme.source_path != Path(P(case["scheme"])).as_posix():
             ck.violation("scheme-source-path", f"scheme.source_path {scheme.source_path!r} after save_scheme to {case['scheme']!r}", case)
         # oracle: the scheme comes back
@@ -1304,9 +1354,17 @@ def check_scheme(ck, case, batch):
         except Exception as e:
             ck.violation("ref-relative-outside-folder" if outside else "load-scheme-raises", f"load_scheme raises {e!r}"[:300], case)
             return
-        for f in ("clp_link_tolerance", "clp_link_method", "maximum_number_function_evaluations", "add_svd", "ftol", "gtol", "xtol",
-                  "optimization_method", "result_path"):
+        batch.add(f"schemert {strs(cwd_parts)} {enc(spath)} {vs_line}", lst(fv_list(loaded)), "scheme-loaded-instance",
+                  "field values of load_scheme(save_scheme(s))", case, post=loaded_post(Path(spath).parent))
+        import dataclasses as _dc
+        # the options of the property statement, spelled out here (not read from the class under test), plus whatever else the live class persists
+        spelled = ["clp_link_tolerance", "clp_link_method", "maximum_number_function_evaluations", "add_svd", "ftol", "gtol", "xtol",
+                   "optimization_method", "result_path"]
+        live = [x.name for x in _dc.fields(Scheme) if "file_loader" not in x.metadata and "exclude_from_dict" not in x.metadata]
+        for f in spelled + [x for x in live if x not in spelled]:
             a, b = getattr(scheme, f), getattr(loaded, f)
+            if type(a) is not type(b) and not (isinstance(a, float) and isinstance(b, float)) and not (isinstance(a, str) and isinstance(b, str)):
+                ck.violation("scheme-option-type-differs", f"scheme.{f}: saved {a!r} ({type(a).__name__}), loaded {b!r} ({type(b).__name__})", case)
             if a != b or (isinstance(a, float) and struct.pack("d", a) != struct.pack("d", float(b))):
                 ck.violation("scheme-option-differs", f"scheme.{f}: saved {a!r}, loaded {b!r}", case)
         if not same_value(listify(scheme.model.as_dict()), listify(plain(loaded.model.as_dict()))):
@@ -1358,12 +1416,223 @@ def gen_scheme_cases(ck):
         w = {"model": where("m") + "m.yml", "parameters": where("p") + rng.choice(["p.csv", "p.csv", "p.tsv", "p.xlsx"]), "data": (where("d") + "data").rstrip("/")}
         opts = {}
         if rng.random() < 0.6:
-            opts = {"clp_link_tolerance": rng.choice([0.0, 0.5, 1e-7]), "maximum_number_function_evaluations": rng.choice([None, 1, 25]),
-                    "add_svd": rng.random() < 0.5, "ftol": rng.choice([1e-8, 1e-10, 0.001]), "optimization_method": rng.choice(["TrustRegionReflection", "Dogbox", "Levenberg-Marquardt"]),
+            tol = [1e-8, 1e-10, 0.001, 1.0, 1e-15, 2.5e-9, 1e20, 0.1, 1.5e-07]
+            opts = {"clp_link_tolerance": rng.choice([0.0, 0.5, 1e-7, 1.0, 1e-08]), "maximum_number_function_evaluations": rng.choice([None, 0, 1, 25, 10**9]),
+                    "add_svd": rng.random() < 0.5, "ftol": rng.choice(tol), "gtol": rng.choice(tol), "xtol": rng.choice(tol),
+                    "optimization_method": rng.choice(["TrustRegionReflection", "Dogbox", "Levenberg-Marquardt"]),
                     "clp_link_method": rng.choice(["nearest", "backward", "forward"])}
-            if rng.random() < 0.3:
-                opts["result_path"] = rng.choice(["results/run", None])
+            if rng.random() < 0.5:
+                opts["result_path"] = rng.choice(["results/run", None, "1e3", "null", "5", "", "out dir/run 1", "true", "1e-08", "~"])
         yield {"stream": "scheme", "base": base, "cwd": cwd, "where": w, "scheme": sfolder + rng.choice(["scheme.yml", "my scheme.yaml"]), "options": opts}
+
+
+# ================================================================================================
+# stream: yaml  (scalars through write_dict / load_dict; ruamel's resolver) + dataclass instances as field values
+# ================================================================================================
+YAML_TAGS = {"tag:yaml.org,2002:bool": "bool", "tag:yaml.org,2002:float": "float", "tag:yaml.org,2002:int": "int",
+             "tag:yaml.org,2002:null": "null"}
+_RESOLVER: list = []
+
+
+def yaml_kind(text):
+    """the tag ruamel's own (1.2) resolver gives a plain scalar"""
+    from ruamel.yaml import YAML
+    from ruamel.yaml.nodes import ScalarNode
+    if not _RESOLVER:
+        _RESOLVER.append(YAML())          # the resolver only holds a weak reference to its YAML object
+    return YAML_TAGS.get(str(_RESOLVER[0].resolver.resolve(ScalarNode, text, (True, False))), "rest")
+
+
+def enc_pv(v):
+    """python value of a plain field -> protocol text (PV of C17Scheme.lean)"""
+    if v is None:
+        return "none"
+    if type(v) is bool:
+        return f"[b,{bool_(v)}]"
+    if type(v) is int or (isinstance(v, int) and type(v).__module__.startswith("ruamel")):
+        return f"[i,{int(v)}]"
+    if type(v) is float or (isinstance(v, float) and type(v).__module__.startswith("ruamel")):
+        return f"[f,{enc(SC.float_yaml_text(float(v)))}]"
+    if type(v) is str or (isinstance(v, str) and type(v).__module__.startswith("ruamel")):
+        return f"[s,{enc(str(v))}]"
+    if isinstance(v, (list, tuple)) and all(isinstance(x, str) for x in v) and not isinstance(v, tuple):
+        return f"[l,{strs([str(x) for x in v])}]"
+    return f"[o,{enc(type(v).__module__.split('.')[0] + '.' + type(v).__name__)}]"
+
+
+def tok_of(node):
+    return f"[{'p' if not node.style else 'q'},{enc(node.value)}]"
+
+
+def node_text(node):
+    from ruamel.yaml.nodes import MappingNode, ScalarNode, SequenceNode
+    if isinstance(node, ScalarNode):
+        return tok_of(node)
+    if isinstance(node, SequenceNode) and all(isinstance(x, ScalarNode) for x in node.value):
+        return "[seq," + lst(tok_of(x) for x in node.value) + "]"
+    if isinstance(node, MappingNode) and all(isinstance(k, ScalarNode) and isinstance(v, ScalarNode) for k, v in node.value):
+        return "[map," + lst(f"[{enc(k.value)},{tok_of(v)}]" for k, v in node.value) + "]"
+    return "[unmodelled-node]"
+
+
+def doc_text(yaml_text):
+    """a written yml file -> the model's document syntax (keys, plain / quoted scalars, flat sequences and mappings)"""
+    from ruamel.yaml import YAML
+    root = YAML().compose(yaml_text)
+    return lst(f"[{enc(k.value)},{node_text(v)}]" for k, v in root.value)
+
+
+def doc_equiv(impl, model):
+    """equal, except that a string the model writes plain may be quoted in the file (the emitter's syntactic reasons are not modelled)"""
+    if impl == model:
+        return True
+    try:
+        a, b = core.parse_tree(impl), core.parse_tree(model)
+    except Exception:  # noqa: BLE001
+        return False
+
+    def eq(x, y):
+        if isinstance(x, list) and isinstance(y, list):
+            if len(x) == 2 and len(y) == 2 and x[0] == "q" and y[0] == "p":
+                return x[1] == y[1]
+            return len(x) == len(y) and all(eq(u, v) for u, v in zip(x, y))
+        return x == y
+    return eq(a, b)
+
+
+def fv_list(obj, loaded_folder=None):
+    """a Scheme / Result instance -> the model's list of field values (order of dataclasses.fields of the live class)"""
+    import dataclasses
+    from collections.abc import Mapping
+    out = []
+    for f in dataclasses.fields(obj):
+        v = getattr(obj, f.name)
+        if "file_loader" in f.metadata:
+            sp = getattr(v, "source_path", None)
+            if isinstance(sp, Mapping):
+                out.append("[cs," + pairs_line([[k, str(x)] for k, x in sp.items()]) + "]")
+            else:
+                out.append("[c,none]" if sp is None else f"[c,{enc(str(sp))}]")
+        elif "exclude_from_dict" in f.metadata:
+            out.append("hidden")
+        else:
+            out.append(f"[v,{enc_pv(v)}]")
+    return out
+
+
+def loaded_post(folder):
+    """model answer for a loaded instance -> comparable with fv_list(loaded): dataset references become the paths they are read from"""
+    def post(ans):
+        if ans in ("raises", "bad-op"):
+            return ans
+        t = core.parse_tree(ans)[0]
+        for fv in t:
+            if isinstance(fv, list) and fv and fv[0] == "cs":
+                fv[1] = [[kv[0], enc((Path(folder) / core.dec(kv[1])).as_posix())] for kv in fv[1]]
+        return ser(t)
+    return post
+
+
+def field_names_line(cls):
+    import dataclasses
+    return lst(enc(f.name) for f in dataclasses.fields(cls))
+
+
+YAML_STRS = ["nearest", "TrustRegionReflection", "Levenberg-Marquardt", "results/run 1", "", " ", "a b", "null", "Null", "~", "true", "False",
+             "yes", "1", "-5", "+7", "1_0", "0x1F", "0o17", "0b101", "017", "1.5", "1.", ".5", "1e3", "1e-08", "1E5", "1.e5", ".5e+3", ".5e3",
+             "-.inf", ".INF", ".nan", "+.Inf", "x: y", "# c", "- a", "'q'", "é", "2020-01-01", "<<", "=", "k.1", "irf.center", "e5", "_1", "1__",
+             "+", "-", ".", "0x", "1e", "1e+", "12e+5.5", "inf", "nan", "TRUE", "NULL", "0.0", "-0.0", "-0", "1.5e-07x"]
+YAML_FLOATS = [0.0, -0.0, 1.0, 1e-8, 1e-08, 1.5e-7, 1e-10, 0.001, 1e20, 1e16, 1e22, 123456789.123, 8.674768301156866e-07, 5e-324,
+               1.7976931348623157e308, 2.2250738585072014e-308, 0.1, 1 / 3, -2.5e-3, 1e15, 1e17, 12345678901234567890.0, float("inf"),
+               float("-inf"), float("nan")]
+
+
+def check_yaml(ck, case, batch):
+    from glotaran.builtin.io.yml.utils import load_dict, write_dict
+
+    kind, raw = case["kind"], case["v"]
+    ck.case(("yaml", kind, json.dumps(raw)))
+    if kind == "text":
+        # a text as a plain scalar: the model's resolver against ruamel's own
+        if raw.isascii() and "\n" not in raw:
+            batch.add(f"ykind {enc(raw)}", yaml_kind(raw), "yaml-resolver", f"tag of the plain scalar {raw!r} (ruamel's resolver)", case)
+            ck.count("yaml:text-" + yaml_kind(raw))
+        v = raw
+    elif kind == "float":
+        v = float(G.from_json(raw)) if isinstance(raw, dict) else float(Fraction(raw))
+        batch.add(f"pyfloat {enc(SC.float_yaml_text(v))}", "T", "float-text", f"the text written for the float {v!r} is of the modelled form", case, internal=True)
+    elif kind == "int":
+        v = int(raw)
+    elif kind == "numpy":
+        v = getattr(np, raw[0])(raw[1])
+    elif kind == "strs":
+        v = list(raw)
+    else:
+        v = {"none": None, "true": True, "false": False}[raw]
+    # correspondence: what write_dict writes for {"k": v}
+    try:
+        text = write_dict({"k": v})
+        impl = doc_text(text)
+    except Exception as e:  # noqa: BLE001
+        text, impl = None, "raises"
+        ck.count("yaml:write-raises-" + type(e).__name__)
+    if (isinstance(v, str) and not v.isascii()) or (isinstance(v, list) and not all(x.isascii() for x in v)):
+        ck.count("yaml:non-ascii-oracle-only")
+    else:
+        batch.add(f"emitpv {enc_pv(v)}", impl, "yaml-emit", f"write_dict of the value {v!r}", case, cmp=doc_equiv,
+                  post=lambda a: a if a == "raises" else lst([f"[{enc('k')},{a}]"]))
+    if text is None:
+        if kind != "numpy":
+            ck.violation("yaml-value-not-writable", f"write_dict raises for the value {v!r} of a type the scheme / result fields declare", case)
+        return
+    # correspondence + oracle (statement): the value comes back with the same type and the same bits
+    back = load_dict(text, False)["k"]
+    ck.oracle_evals += 1
+    if isinstance(v, (bool, int, float, str)) or v is None:
+        tok = core.parse_tree(impl)[0][0][1]
+        if isinstance(tok, list) and tok[0] in ("p", "q") and core.dec(tok[1]).isascii():
+            batch.add(f"resolve [{tok[0]},{tok[1]}]", enc_pv(back), "yaml-resolve", f"load_dict of the scalar written for {v!r}", case)
+    same = (type(back) is type(v) or (isinstance(v, float) and isinstance(back, float) and not isinstance(back, bool))
+            or (isinstance(v, list) and isinstance(back, list)))
+    if isinstance(v, float):
+        same = same and (struct.pack("d", float(back)) == struct.pack("d", v) or (v != v and back != back))
+    elif isinstance(v, list):
+        same = same and [str(x) for x in back] == v and all(isinstance(x, str) for x in back)
+    else:
+        same = same and back == v
+    if not same:
+        ck.violation("yaml-scalar-roundtrip", f"write_dict -> load_dict turns {v!r} ({type(v).__name__}) into {back!r} ({type(back).__name__})", case)
+
+
+def gen_yaml(ck):
+    rng = ck.rng
+    for s in YAML_STRS:
+        yield {"stream": "yaml", "kind": "text", "v": s}
+    for x in YAML_FLOATS:
+        yield {"stream": "yaml", "kind": "float", "v": G.to_json(x) if (x != x or abs(x) == float("inf")) else str(Fraction(x))}
+    for v in ("none", "true", "false"):
+        yield {"stream": "yaml", "kind": "const", "v": v}
+    for v in (["float64", 1e-8], ["int64", 3], ["bool_", True], ["float32", 0.5]):
+        yield {"stream": "yaml", "kind": "numpy", "v": v}
+    yield {"stream": "yaml", "kind": "strs", "v": []}
+    for _ in range(ck.n(250, 4000)):
+        r = rng.random()
+        if r < 0.3:
+            x = rng.choice([rng.uniform(-1, 1) * 10.0 ** rng.randint(-320, 308), float(rng.randint(-10**6, 10**6)),
+                            rng.choice([1, 2, 5]) * 10.0 ** rng.randint(-30, 30), rng.random()])
+            yield {"stream": "yaml", "kind": "float", "v": str(Fraction(x))}
+        elif r < 0.45:
+            yield {"stream": "yaml", "kind": "int", "v": str(rng.choice([0, 1, -1, rng.randint(-10**6, 10**6), rng.randint(-10**30, 10**30)]))}
+        elif r < 0.55:
+            yield {"stream": "yaml", "kind": "strs", "v": [rng.choice(YAML_STRS) for _ in range(rng.randint(0, 3))]}
+        else:
+            n = rng.randint(0, 7)
+            yield {"stream": "yaml", "kind": "text", "v": "".join(rng.choice("01.eE+-_xb~ntf.5ul:") for _ in range(n))}
+    if not ck.quick:
+        for n in range(0, 6):
+            for t in itertools.product("1.e+_", repeat=n):
+                yield {"stream": "yaml", "kind": "text", "v": "".join(t)}
+        ck.extra["exhaustive_yaml"] = "all strings of length <= 5 over '1.e+_' through the resolver and write_dict / load_dict"
 
 
 # ================================================================================================
@@ -1618,9 +1887,9 @@ def gen_ascii(ck):
 # ================================================================================================
 # driver of the check
 # ================================================================================================
-CHECKERS = {"text": check_text, "tree": check_tree, "interval": check_interval, "path": check_path, "model": check_model,
+CHECKERS = {"yaml": check_yaml, "text": check_text, "tree": check_tree, "interval": check_interval, "path": check_path, "model": check_model,
             "result": check_result, "scheme": check_scheme, "netcdf": check_netcdf, "ascii": check_ascii}
-GENERATORS = [("text", gen_text), ("tree", gen_tree), ("interval", gen_interval), ("path", gen_path), ("ascii", gen_ascii),
+GENERATORS = [("text", gen_text), ("yaml", gen_yaml), ("tree", gen_tree), ("interval", gen_interval), ("path", gen_path), ("ascii", gen_ascii),
               ("netcdf", gen_netcdf), ("model", gen_model), ("scheme", gen_scheme_cases), ("result", gen_result)]
 
 
@@ -1663,7 +1932,9 @@ def search(ck):
     wide.rng = ck.rng
     t0 = time.time()
     budget = 60 if ck.quick else 400
-    for name, gen in GENERATORS:
+    # the API-level streams first (a broken table / shape theorem is most likely witnessed by a scheme or a result)
+    first = ("scheme", "result", "yaml", "model")
+    for name, gen in sorted(GENERATORS, key=lambda g: first.index(g[0]) if g[0] in first else len(first)):
         t1 = time.time()
         share = budget / len(GENERATORS)
         for case in gen(wide):
